@@ -251,6 +251,45 @@ func runC17(c *Ctx) {
 	c.R.Check(nSend >= 5, r7, "client", "peer sends of the invocation goroutines enumerated", "-", fmt.Sprintf("found %d", nSend))
 	c.R.Floor(r7, 6)
 
+	const r9 = "C17.R9 an API call never blocks on the transport alone"
+	// outside the receive loop every hand-over to the peer's outbound queue has the end of the client as an
+	// alternative: the send helper, or a select with Done / the client's context
+	sh := cl + "send"
+	c.Has(r9, sh, "send gives up when the client is done", `^select\{send:call:invoke:wamp\.Peer\.Send\[%c\.sess\.Peer\]\(\)<-%msg;recv:call:client\.\(\*Client\)\.Done\(%c\)\}$`, 1)
+	runLoop := map[string]bool{}
+	if root := c.P.Func(cl + "run"); root != nil {
+		for f := range ir.SyncReachable(root) {
+			runLoop[ir.ShortName(f)] = true
+		}
+	}
+	nAPI := 0
+	for _, fn := range c.P.FuncsIn("client") {
+		name := ir.ShortName(fn)
+		if runLoop[name] || strings.HasPrefix(name, cl+"runHandleInvocation$") || name == sh {
+			continue // the receive loop (its sends are the router's to drain) and the invocation goroutines (C17.R7)
+		}
+		if name == "client.joinRealm" || name == "client.handleCRAuth" {
+			continue // the joining handshake of NewClient: no client (and no Done) exists yet; bounded by the connect context / response timeout of the handshake
+		}
+		for _, in := range ir.Instrs(fn) {
+			d := ir.InstrDesc(in)
+			switch {
+			case strings.HasPrefix(d, "send:call:invoke:wamp.Peer.Send["):
+				nAPI++
+				c.R.Bad(r9, name, "hand-over to the transport can be abandoned when the client is done: "+d, c.pos(in),
+					"unconditional send to the peer's outbound queue in an API call: when the connection ends at this moment nothing drains the queue any more and the call never returns")
+			case strings.HasPrefix(d, "select{send:call:invoke:wamp.Peer.Send["):
+				nAPI++
+				c.R.Check(strings.Contains(d, ";recv:"), r9, name, "hand-over to the transport can be abandoned: "+d, c.pos(in), "select without an alternative")
+			case strings.HasPrefix(d, "call:client.(*Client).send("):
+				nAPI++
+				c.R.OK(r9, name, "hand-over through the send helper: "+d, c.pos(in), "")
+			}
+		}
+	}
+	c.R.Check(nAPI >= 12, r9, "client", "hand-overs of the API functions enumerated", "-", fmt.Sprintf("found %d", nAPI))
+	c.R.Floor(r9, 14)
+
 	const r8 = "C17.R8 waiting for a reply is bounded by one timer"
 	for _, w := range []string{"waitForReply", "waitForReplyWithCancel"} {
 		c.Reach(r8, cl+w, "no timer is (re)armed once waiting on it has begun", ReachSpec{
